@@ -557,7 +557,7 @@ pub fn c04_script(r: &mut Rng, index: u64, _tier: Tier) -> (CaseCfg, Vec<Step>) 
         }
         return (cfg, s);
     }
-    if index % 12 == 5 {
+    if index % 12 == 1 {
         // an inbound PUBLISH on either side of the three-byte / four-byte remaining-length boundary
         // (2 MiB), in a receive buffer that holds it: delivered verbatim and acknowledged
         let rl = *r.pick(&[2_097_151usize, 2_097_152, 2_097_153]);
